@@ -265,7 +265,8 @@ PROPS['C16'] = floor_prop(
     {'d': _c.fields('val', 'vh', 'cost', 'rval'), 'm': _c.fields('val', 'vh'), 'p': _c.fields('v'),
      'rec': _c.only(('supplied_new_part', 'received_part'))},
     ('d ',), 'the runner also checks value bookkeeping on the live objects after every event; non-trivial = a value changed',
-    runner='ValueRunner', families=[('floor', 120, 2500), ('floors', 80, 1500), ('maint', 60, 1000)],
+    # floorv: value-changing receive callbacks on every station including the sinks themselves
+    runner='ValueRunner', families=[('floor', 120, 2500), ('floors', 80, 1500), ('maint', 60, 1000), ('floorv', 60, 1000)],
     nontrivial=lambda st, s: any(l.startswith(('d ', 'm ')) and ' vh=0 ' not in l + ' ' for l in st))
 import c16 as _c16
 PROPS['C16']['extra'] = _c16.net_value
